@@ -248,7 +248,7 @@ def isclose(a, b, rtol=1e-9, atol=1e-9):
     try:
         a = float(a)
         b = float(b)
-    except (TypeError, ValueError):
+    except (TypeError, ValueError, OverflowError):  # (an exact integer beyond the float range)
         return a == b
     if math.isnan(a) or math.isnan(b):
         return math.isnan(a) and math.isnan(b)
